@@ -1,11 +1,52 @@
-PROP = {
-    "kani_groups": ["hk_batcher"],
-    "smt": [],
-    "technique": "bounded model checking (Kani/CBMC) of one-step harnesses over the real emit_batcher code",
-    "functions": [],
-    "bounds": "",
-    "outside": "",
-    "stubs": [],
-    "assumptions": [],
-    "timeout": {"quick": 900, "thorough": 3600},
-}
+PROP = {'kani_groups': ['hk_batcher'],
+ 'smt': [],
+ 'technique': 'bounded model checking (Kani/CBMC) of one-step inductive harnesses over the real emit_batcher code '
+              '(scratch copy with the Mutex / catch_unwind / de-asynced exec substitutions): every sender operation '
+              'and one full receiver-loop iteration from an ARBITRARY valid state; composition over histories is a '
+              'written induction',
+ 'functions': ['emit_batcher::bounded, Sender::{send, try_send, send_or_wait}, BatchError::{retry, no_retry, '
+               'try_into_retryable, into_retryable}',
+               'Receiver::exec (one loop iteration incl. the whole retry loop), Batch::new/default, Capacity::{new, '
+               'next}, CatchUnwind::poll',
+               'impl Channel for the harness queue ArrQ<4> (instantiation)'],
+ 'bounds': 'capacity 1..=3, pending <= capacity; sender steps: <= 1 (thorough 2) watchers of each kind registered; '
+           'send_or_wait: <= 2 wait rounds, state arbitrarily replaced during each wait; receiver iteration: 0..=2 '
+           '(thorough 3) pending items, 1 (thorough 0..2) watchers of each kind, retry budget 0/1 (thorough 2) '
+           'instead of 10, processor outcome per attempt in {Ok, Err no-retry, Err retry(any remainder of <= 2 (3) '
+           'items incl. empty)}, panic plan over all guarded calls; Capacity: any 32-entry history',
+ 'outside': 'CANNOT BE ENCODED (Kani executes one thread, no OS): batcher/src/tokio.rs and web.rs entirely; the '
+            'blocking wrappers of batcher/src/sync.rs (Trigger/condvar wait_timeout, Instant, thread spawn/join, its '
+            'block_on); wall-clock time; real unwinding; the std mutex itself (assumed). The multi-step composition '
+            '(any number of senders, any interleaving, histories of any length) is a WRITTEN induction over the '
+            'solver-checked one-step obligations (harness/hk_batcher/src/lib.rs), not a solver result; a bounded '
+            "multi-step schedule harness did not fit CBMC (20 min symex, no verdict). Also outside: the claim 'under "
+            "every interleaving' is reduced to 'every step is atomic under the (assumed) mutex and correct from "
+            "every state'; items pending when the receiver is torn down (documented exception); Channel impls of "
+            'emit_file / emit_otlp; retry budgets > 2 (Retry itself is decided for every budget by c08_q_k_retry)',
+ 'stubs': ['batcher:mutex — std::sync::Mutex in batcher/src/lib.rs -> single-owner cell with the same lock() API, an '
+           'acquisition counter and a hook called before every acquisition; asserts the lock is never re-acquired '
+           "while held. Mutual exclusion itself is std's contract and is ASSUMED",
+           'batcher:catch-unwind — std::panic::catch_unwind -> panic plan: the i-th guarded call either runs its '
+           'closure and returns Ok, or (plan bit i) does not run it, drops it and returns Err; partial effects of a '
+           'closure that panics half-way are not modelled',
+           'batcher:exec-fn/exec-await-* — Receiver::exec de-asynced in the scratch tree only (async fn -> fn, each '
+           '.await -> poll once with a no-op waker, the future must be Ready); preserves the program order of the '
+           'single receiver task for processors/waits whose futures complete; never-completing futures are outside',
+           'batcher:capacity-pub + #[kani::stub(Capacity::next -> constant 0)] in the receiver harnesses only: the '
+           'result is only a hint for Channel::with_capacity (ignored by the harness queue); the real Capacity::next '
+           'is decided for every state by c06_q_k_capacity',
+           "receiver harnesses cut the run by assume(false) at the receiver's second acquisition of the state lock, "
+           'after the post-conditions of the iteration were asserted there',
+           'inject/batcher.rs: read-only snapshot, constructor of a (Sender, Receiver) pair from an explicit state '
+           '(through `bounded`), pub wrappers around send_or_wait / Watchers / Batch::new / Retry / Delay / Capacity '
+           '/ CatchUnwind — no logic'],
+ 'assumptions': ['pre-state of every one-step harness: 1 <= capacity <= 3, pending <= capacity (representation '
+                 'invariant I0, shown preserved by every sender step); everything else arbitrary',
+                 'Channel instantiation: ArrQ<4>, a fixed-array FIFO of u8 implementing the public Channel trait '
+                 '(Vec::push with symbolic length costs 9 M SAT variables); other Channel impls are outside',
+                 'std::sync::Mutex provides mutual exclusion (assumed, replaced)',
+                 'a send on a CLOSED channel (receiver gone) enqueues nothing; what it does to items that can no '
+                 'longer be delivered is not constrained (on the pinned tree a closed+full send still clears the '
+                 'queue and counts a truncation)'],
+ 'timeout': {'quick': 900, 'thorough': 3600},
+ 'slow_first': ['_r_exec', 'send_or_wait']}
